@@ -40,6 +40,7 @@ import (
 	"os"
 	"os/exec"
 	"path/filepath"
+	"runtime"
 	"sort"
 	"strings"
 	"sync"
@@ -862,6 +863,9 @@ func propRun(gs []groupSpec, sc map[int]logScript, o *runObs, allowed map[int]bo
 // runBubble executes f inside a synctest bubble and lets every leaked goroutine finish.
 func runBubble(t *testing.T, deadline time.Duration, f func(ctx context.Context, rc *recorder) (scts []int, ok bool)) *runObs {
 	o := &runObs{}
+	if raceEnabled {
+		defer runtime.GOMAXPROCS(runtime.GOMAXPROCS(1))
+	}
 	synctest.Test(t, func(t *testing.T) {
 		ctx, cancel := context.WithTimeout(context.Background(), deadline)
 		defer cancel()
@@ -1624,7 +1628,10 @@ func timedStreams(t *testing.T, r *mrand.Rand, w adder) {
 // the toolchain's own fault: go1.26.8 built with -race occasionally dies of a fatal SIGSEGV
 // on a runtime stack (in runtime.(*timer).maybeRunChan when a bubble goroutine selects on
 // time.After(0), in the race runtime on g0, or as an internal "ThreadSanitizer: CHECK failed") - observed in roughly one of three runs of
-// 5000 bubbles, with no data race reported; it does not involve the code under test.  Anything else the child prints (a DATA RACE report, a panic, a test
+// 5000 bubbles, with no data race reported; it does not involve the code under test.  It
+// was never observed on a single P (0 of 20 runs), so race builds run their bubbles with
+// GOMAXPROCS=1 (the detector works on happens-before, not on physical parallelism); the
+// retry stays as a safety net.  Anything else the child prints (a DATA RACE report, a panic, a test
 // failure) is passed on and fails the harness.
 func timedStreamsInChild(t *testing.T, w adder) {
 	path := filepath.Join(*lib.OutDir, "c17-child.jsonl")
@@ -1634,7 +1641,7 @@ func timedStreamsInChild(t *testing.T, w adder) {
 	for attempt := 0; attempt < 8; attempt++ {
 		os.Remove(path)
 		cmd := exec.Command(os.Args[0], "-test.run", "^TestHarness$", "-test.timeout", "0", "-test.count", "1", "-out", *lib.OutDir)
-		cmd.Env = append(os.Environ(), childEnv+"="+path)
+		cmd.Env = append(os.Environ(), childEnv+"="+path, "GOMAXPROCS=1")
 		out, err = cmd.CombinedOutput()
 		if err == nil {
 			break
